@@ -674,6 +674,7 @@ type cdInfo struct {
 	fn    *ssa.Function
 	ipdom map[*ssa.BasicBlock]*ssa.BasicBlock // nil = virtual exit
 	cd    map[*ssa.BasicBlock][]cdEdge
+	relTo *ssa.BasicBlock // guardRel: branches decided outside the region dominated by relTo count as taken
 }
 
 // controlDeps computes post-dominators (iterative, Cooper-Harvey-Kennedy on
@@ -1083,6 +1084,10 @@ func (ci *cdInfo) guardOfM(b *ssa.BasicBlock, memo map[*ssa.BasicBlock]*Form, on
 			continue // loop-carried
 		}
 		any = true
+		if ci.relTo != nil && d.b != ci.relTo && !ci.relTo.Dominates(d.b) {
+			alts = append(alts, fTrue)
+			continue
+		}
 		iff := blockIf(d.b)
 		if iff == nil {
 			continue
@@ -1747,4 +1752,18 @@ func eqEdges(iff *ssa.If) (bo *ssa.BinOp, eqIdx, neIdx int, ok bool) {
 		return bo, 1, 0, true
 	}
 	return nil, 0, 0, false
+}
+
+// guardRel is the guard of b relative to a dominating block a: the condition under which b is reached, given that a
+// was (conditions decided at or above a are dropped).
+func (ci *cdInfo) guardRel(b, a *ssa.BasicBlock) *Form {
+	memo := map[*ssa.BasicBlock]*Form{}
+	for _, x := range ci.fn.Blocks {
+		if x == a || !a.Dominates(x) {
+			memo[x] = fTrue
+		}
+	}
+	rel := *ci
+	rel.relTo = a
+	return rel.guardOfM(b, memo, map[*ssa.BasicBlock]bool{})
 }
